@@ -27,6 +27,8 @@ pub enum Kind {
     Encaps,
     Encrypt,
     Header,
+    /// header with present-but-empty metadata (still an AEAD encryption: nonce + tag)
+    HeaderEmpty,
     Keygen,
     Rekey,
     Setup,
@@ -40,7 +42,7 @@ pub struct Sym {
 
 pub fn alphabet() -> Vec<Sym> {
     let mut v = vec![];
-    for kind in [Kind::Encaps, Kind::Encrypt, Kind::Header, Kind::Keygen, Kind::Rekey, Kind::Setup] {
+    for kind in [Kind::Encaps, Kind::Encrypt, Kind::Header, Kind::HeaderEmpty, Kind::Keygen, Kind::Rekey, Kind::Setup] {
         for inst in 0..2 {
             v.push(Sym { kind, inst });
         }
@@ -104,6 +106,15 @@ pub fn step(c: &mut Ctx, s: Sym) -> Result<Fields, (String, String)> {
             let nonce = Nonce::try_from_slice(&w.md[..12]).map_err(|e| ("C16.x".to_string(), e.to_string()))?;
             if Aes256Gcm::new(&key).decrypt(&nonce, &w.md[12..], Some(b"ad")).is_ok() {
                 return Err(("C16.e".into(), "the encrypted metadata decrypts under the secret handed to the caller".into()));
+            }
+        }
+        Kind::HeaderEmpty => {
+            let (secret, hdr) = EncryptedHeader::generate(cc, &mpk, &p("A::x"), Some(b""), None).map_err(|e| ("C16.x".to_string(), format!("header: {e}")))?;
+            f.push(("secret", secret.to_vec()));
+            let w = WHeader::decode(&ser(&hdr)).map_err(|e| ("C13.w".to_string(), e))?;
+            enc_fields(&w.enc.encode(), &mut f);
+            if w.md.len() >= 12 {
+                f.push(("AEAD nonce", w.md[..12].to_vec()));
             }
         }
         Kind::Keygen => {
@@ -247,7 +258,7 @@ pub fn check(prop: &str, tier: &str) -> i32 {
     let mut c = fresh_ctx(&base_msk, &base_mpk);
     let mut long_fields = 0u64;
     let mut seen: HashMap<u128, u32> = HashMap::new();
-    let plan = [(Kind::Encaps, n_enc), (Kind::Encrypt, n_ctx), (Kind::Keygen, n_key), (Kind::Rekey, n_rekey), (Kind::Header, n_rekey), (Kind::Encaps, n_rekey)];
+    let plan = [(Kind::Encaps, n_enc), (Kind::Encrypt, n_ctx), (Kind::Keygen, n_key), (Kind::Rekey, n_rekey), (Kind::Header, n_rekey), (Kind::HeaderEmpty, n_rekey), (Kind::Encaps, n_rekey)];
     let mut call_no = 0u32;
     let mut ad_cases = 0u64;
     'outer: for (kind, n) in plan {
@@ -313,7 +324,7 @@ pub fn check(prop: &str, tier: &str) -> i32 {
     }
     run.set("evaluations", json!(jobs.len() as u64 + u64::from(call_no)));
     run.set("distinct_nontrivial", json!(global.len() as u64 + seen.len() as u64));
-    run.set("rule", json!(format!("every sequence of length <= {depth} over 12 symbols (encaps, encrypt, header, keygen, rekey *, setup; each on instance 1 or 2 of two Covercrypt instances sharing one master key; identical arguments every time) is executed on fresh instances; from every output the freshness-bearing fields are extracted with the independent decoder (returned secret, tag, traps, masked seeds, ML-KEM ciphertexts, AEAD nonces, user ids and markers, published H / ek, tracing points, master scalar, signing key) and must be pairwise distinct within the sequence and across all sequences; one long path of {n_enc} encaps + {n_ctx} encrypt + {n_key} keygen + {n_rekey} rekey/header/encaps on one instance pair; seeded-instance self-test. distinct_nontrivial = distinct field values collected")));
+    run.set("rule", json!(format!("every sequence of length <= {depth} over 14 symbols (encaps, encrypt, header, header with empty metadata, keygen, rekey *, setup; each on instance 1 or 2 of two Covercrypt instances sharing one master key; identical arguments every time) is executed on fresh instances; from every output the freshness-bearing fields are extracted with the independent decoder (returned secret, tag, traps, masked seeds, ML-KEM ciphertexts, AEAD nonces, user ids and markers, published H / ek, tracing points, master scalar, signing key) and must be pairwise distinct within the sequence and across all sequences; one long path of {n_enc} encaps + {n_ctx} encrypt + {n_key} keygen + {n_rekey} rekey/header/encaps on one instance pair; seeded-instance self-test. distinct_nontrivial = distinct field values collected")));
     run.set("sequences", json!(jobs.len()));
     run.set("fields_compared", json!(fields + long_fields));
     run.set("fields_by_kind", json!(kinds));
